@@ -332,6 +332,20 @@ func (c *Chain) Begin() (pi *PanicInfo) {
 	var proposer []byte
 	if len(c.ConsKey) > 0 {
 		proposer = c.ConsKey[0].Address()
+		// as on a real network the proposer is a validator of the current set: the EVM resolves it through staking and
+		// fails to load its configuration for a validator that has been removed
+		if c.blocks > 0 {
+			func() {
+				defer func() { recover() }()
+				ctx := c.App.NewContext(true, tmproto.Header{Height: c.App.LastBlockHeight()})
+				for _, k := range c.ConsKey {
+					if v, ok := c.App.StakingKeeper.GetValidatorByConsAddr(ctx, sdk.ConsAddress(k.Address())); ok && v.IsBonded() {
+						proposer = k.Address()
+						return
+					}
+				}
+			}()
+		}
 	}
 	c.header = tmproto.Header{
 		ChainID:         ChainID,
